@@ -3,7 +3,7 @@
 //! Provides append-only file logging for command persistence and replay.
 
 use std::fs::{File, OpenOptions};
-use std::io::{Write, BufWriter, BufReader, BufRead};
+use std::io::{Write, BufWriter, BufReader, Read};
 use std::path::PathBuf;
 use std::sync::{Arc, Mutex};
 use std::time::{Duration, Instant};
@@ -120,14 +120,19 @@ impl AofEngine {
         }
         
         let file = File::open(&self.file_path)?;
-        let reader = BufReader::new(file);
+        let mut reader = BufReader::new(file);
         let mut parser = RespParser::new();
         
-        // Read and replay all commands
-        for line in reader.lines() {
-            let line = line?;
-            parser.feed(line.as_bytes());
-            parser.feed(b"\n");
+        // Read and replay all commands. The log is binary: values may hold any bytes, so it is
+        // read as bytes, not as lines of text (a value that is not valid UTF-8 used to make the
+        // start-up fail with "stream did not contain valid UTF-8")
+        let mut chunk = [0u8; 8192];
+        loop {
+            let n = reader.read(&mut chunk)?;
+            if n == 0 {
+                break;
+            }
+            parser.feed(&chunk[..n]);
             
             while let Some(frame) = parser.parse()? {
                 // Execute command against storage
